@@ -99,6 +99,16 @@ void useQueues()
 		Q::QueuedEvent ev; (void)q.takeEvent(&ev); q.dispatch(ev); q.clearEvents();
 	}
 	{
+		using Q = eventpp::EventQueue<int, void (const std::string &), PoliciesGetEventExcl>;
+		Q q; q.appendListener(4, [](const std::string &) {});
+		q.enqueue(404, "not found"); q.enqueue(200, std::string("ok")); (void)q.process();
+	}
+	{
+		using Q = eventpp::EventQueue<int, void (std::string), PoliciesGetEventExclValue>;
+		Q q; q.appendListener(4, [](std::string) {});
+		q.enqueue(404, std::string("payload")); std::string s("x"); q.enqueue(200, s); (void)q.process(); (void)q.processOne();
+	}
+	{
 		using Q = eventpp::EventQueue<int, void (int, std::string), PoliciesFilter>;
 		exerciseQueueCommon<Q>(1, [](int, std::string) {}, 1, std::string("x"));
 		Q q; exerciseWait(q);
